@@ -64,3 +64,35 @@ theorem row_unique_calm (sc : Scn) (ops : List Op) (s : Sys) (h : run (init sc) 
   (rowsUnique_calm sc ops s h hf).row_unique hr hr' hj
 
 end Jade.Sys
+
+namespace Jade.Sys
+
+theorem flatMap_files_nodup {nf : Bid → List Row} (hu : UniqN nf) (bs : List Batch)
+    (hb : (bs.map (·.bid)).Nodup) : ((bs.flatMap fun b => nf b.bid).map (·.job)).Nodup := by
+  induction bs with
+  | nil => simp
+  | cons B bs ih =>
+    simp only [List.map_cons, List.nodup_cons, List.mem_map, not_exists, not_and] at hb
+    simp only [List.flatMap_cons, List.map_append]
+    rw [List.nodup_append]
+    refine ⟨hu.node B.bid, ih hb.2, ?_⟩
+    intro a ha c hc
+    obtain ⟨r, hr, rfl⟩ := List.mem_map.1 ha
+    obtain ⟨r', hr', rfl⟩ := List.mem_map.1 hc
+    obtain ⟨B', hB', hr''⟩ := List.mem_flatMap.1 hr'
+    exact hu.nodeNode B.bid B'.bid (fun e => hb.1 B' hB' e.symm) r hr r' hr''
+
+/-- the counting form: the model's list of all rows (`allRows`: consolidated file, then the node file of
+    every batch) names no job twice -/
+theorem allRows_nodup {s : Sys} (hu : RowsUnique s) (hb : (s.batches.map (·.bid)).Nodup) :
+    ((allRows s).map (·.job)).Nodup := by
+  unfold allRows
+  rw [List.map_append, List.nodup_append]
+  refine ⟨hu.proc, flatMap_files_nodup hu.nodes s.batches hb, ?_⟩
+  intro a ha c hc
+  obtain ⟨r, hr, rfl⟩ := List.mem_map.1 ha
+  obtain ⟨r', hr', rfl⟩ := List.mem_map.1 hc
+  obtain ⟨B', -, hr''⟩ := List.mem_flatMap.1 hr'
+  exact hu.procNode B'.bid r hr r' hr''
+
+end Jade.Sys
